@@ -328,6 +328,36 @@ def monitor(case, o):
         for q in submitted:
             if replies.get(q, 0) == 0 and q not in cancelled_before_reply(o, q):
                 v["C02"].append(({"class": "unanswered"}, "request %d was never answered" % q))
+    # needless reload: the pending loop (goroutine Run.go1#k of the instrumented sched.go) zeroes the keep-alive of a live
+    # runner r - which it only does to reload r or to make room - although no unanswered request is for another
+    # model, every unanswered request for r's model is compatible with r, and no ping of r failed for this request
+    answered, subm, ping_failed = set(), [], set()      # ping_failed: since the pending loop took its current request
+    for i, s_ in enumerate(o["steps"]):
+        for e in s_["ev"]:
+            if e[0] == "submit":
+                subm.append(e[1])
+            elif e[0] == "reply":
+                answered.add(e[1])
+            elif e[0] == "ping" and e[2] == "fail":
+                ping_failed.add(e[1])
+        c_ = s_["c"]
+        if i == 0 or c_.get("a") != "run" or not str(c_.get("g", "")).startswith("Run.go1#"):
+            continue
+        if s_["st"]["q"][0] < o["steps"][i - 1]["st"]["q"][0]:
+            ping_failed = set()
+        before, after = o["steps"][i - 1]["st"]["rs"], s_["st"]["rs"]
+        for rid in range(min(len(before), len(after))):
+            b, a = before[rid], after[rid]
+            if not b or not a or rid not in started:
+                continue
+            if b[1] != 0 and a[1] == 0 and not a[4] and a[0] == b[0]:   # a[0] > b[0]: a grant with keep_alive 0
+                m, key = started[rid]
+                unanswered = [q for q in subm if q not in answered]
+                other = [q for q in unanswered if case["reqs"][q]["m"] != m]
+                incompat = [q for q in unanswered if case["reqs"][q]["m"] == m and not compat_py(key, qkey(case, q))]
+                if not other and not incompat and rid not in ping_failed and unanswered:
+                    v["C11"].append(({"class": "needless-reload"}, "step %d: the pending loop expires runner r%d of model %d to reload it although every waiting request %s "
+                                     "is for that model with compatible options and the runner answered its ping" % (i, rid, m, unanswered)))
     # reuse class: every request is compatible with the first runner of its model, no load / ping / newServer
     # failure, keep-alive forever, room for every model: a second runner for a model is justified only by an explicit
     # unload of that model before it was started
@@ -682,7 +712,9 @@ MANIFEST = {
     },
     "level_note": "Theorems hold for the repaired scheduler (fix commits 769ee6347, 27da3f16f, 840d0e442; refuted for the code as found, Sched/Refute.v). "
                   "Partial: no termination measure (the quiescent states are characterised, C02_quiescent_complete, but reaching quiescence is only monitored); "
-                  "C11 memory fit is an oracle in the model (monitored with an independent fit computation, not proved). "
+                  "C11 memory fit: the model's placement is an oracle; C11_fit_before_start proves a server is started only after the oracle answered 'fits' or with "
+                  "nothing loaded, the oracle's meaning (real PredictServerFit arithmetic) is monitored with an independent fit computation, not proved. "
+                  "C11 on /repo needs fixes/C11-requeued-numctx.patch (a re-queued request keeps its NumCtx scaled by numParallel and reloads a compatible runner). "
                   "The model-to-code tie is trace conformance on generated schedules (generator-bounded). See notes/C01.md.",
     "technique": "Coq proof (invariants over the reachable states of an LTS) + trace-conformance check against the steered real scheduler",
 }
